@@ -40,9 +40,15 @@ for k in entry:
     for a, b in cmap.items():
         entry[k] = entry[k].replace(a, b)
 reg = open(V + '/vlib/registry.py').read()
-assert ("'%s': dict(" % pid) not in reg, 'already registered'
-txt = " '%s': dict(\n" % pid + ''.join("    %s=%r,\n" % (k, entry[k]) for k in ('category', 'text', 'note', 'technique', 'design_ref')) + "    ),\n}\nPENDING_REASON"
-reg = reg.replace("}\nPENDING_REASON", txt, 1)
+body = " '%s': dict(\n" % pid + ''.join("    %s=%r,\n" % (k, entry[k]) for k in ('category', 'text', 'note', 'technique', 'design_ref')) + "    ),\n"
+if ("'%s': dict(" % pid) in reg:
+    # update in place
+    i = reg.index(" '%s': dict(" % pid)
+    j = reg.index("    ),\n", i) + len("    ),\n")
+    reg = reg[:i] + body + reg[j:]
+    print('updated registry entry', pid)
+else:
+    reg = reg.replace("}\nPENDING_REASON", body + "}\nPENDING_REASON", 1)
 open(V + '/vlib/registry.py', 'w').write(reg)
 # --- findings
 kf = json.load(open(V + '/KNOWN_FINDINGS.json'))
